@@ -7,6 +7,7 @@ import (
 	"bytes"
 	"context"
 	"encoding/json"
+	"fmt"
 	"os"
 	"os/exec"
 	"path/filepath"
@@ -65,12 +66,90 @@ func (r *Run) runStandins() []*StandinResult {
 		if len(m.Tiers) > 0 && !hasTag(m.Tiers, r.tier) {
 			continue
 		}
-		out = append(out, r.runStandin(filepath.Dir(mf), &m))
+		out = append(out, r.runStandin(filepath.Dir(mf), &m, ""))
+	}
+	out = append(out, r.runAxiomStandins()...)
+	return out
+}
+
+// runAxiomStandins: every axiom with `checked_by NAME` and `domain` clauses is executed over its whole finite domain
+// with the uninterpreted spec functions bound to the real code (their replay bodies).
+func (r *Run) runAxiomStandins() []*StandinResult {
+	byName := map[string][]*Decl{}
+	var names []string
+	for _, d := range r.w.Lemmas {
+		if !d.Axiom || d.Checked == "" {
+			continue
+		}
+		used := hasTag(d.Tags, r.prop)
+		for _, u := range r.units {
+			for _, l := range u.Lemmas {
+				if l == d.Name {
+					used = true
+				}
+			}
+		}
+		if !used {
+			continue
+		}
+		if _, ok := byName[d.Checked]; !ok {
+			names = append(names, d.Checked)
+		}
+		byName[d.Checked] = append(byName[d.Checked], d)
+	}
+	sort.Strings(names)
+	var out []*StandinResult
+	for _, n := range names {
+		if r.only != "" && r.only != "standin:"+n {
+			continue
+		}
+		ds := byName[n]
+		pk := r.w.Pkgs[ds[0].Pkg]
+		var tb strings.Builder
+		fmt.Fprintf(&tb, "package %s\n\nimport (\n\t\"fmt\"\n\t\"testing\"\n)\n\nfunc TestStandinAxioms_%s(t *testing.T) {\n\tn := 0\n\tfails := 0\n", pk.Name, n)
+		var doms []string
+		for _, d := range ds {
+			var vars []string
+			depth := 1
+			for _, c := range d.Clauses {
+				if c.Kind == "domain" {
+					fmt.Fprintf(&tb, "%sfor %s := %s; %s <= %s; %s++ {\n", strings.Repeat("\t", depth), c.SplitVar, c.SplitLo, c.SplitVar, c.SplitHi, c.SplitVar)
+					vars = append(vars, c.SplitVar)
+					doms = append(doms, fmt.Sprintf("%s: %s in %s..%s", d.Name, c.SplitVar, c.SplitLo, c.SplitHi))
+					depth++
+				}
+			}
+			pn, _ := d.paramNamesTypes()
+			args := strings.Join(pn, ", ")
+			ind := strings.Repeat("\t", depth)
+			fmt.Fprintf(&tb, "%sn++\n%sif %s__req(%s) && !%s__ens(%s) {\n%s\tfails++\n%s\tif fails <= 20 { fmt.Println(\"STANDIN-FAIL axiom=%s\", %s) }\n%s}\n", ind, ind, d.Name, args, d.Name, args, ind, ind, d.Name, fmtArgs(vars), ind)
+			for i := len(vars); i > 0; i-- {
+				fmt.Fprintf(&tb, "%s}\n", strings.Repeat("\t", i))
+			}
+		}
+		tb.WriteString("\tfmt.Println(\"STANDIN-EVAL\", n)\n\tfmt.Println(\"STANDIN-DONE\")\n}\n")
+		tmp, err := os.MkdirTemp("", "govc-axs-")
+		if err != nil {
+			continue
+		}
+		os.WriteFile(filepath.Join(tmp, "axioms_test.go"), []byte(tb.String()), 0644)
+		os.WriteFile(filepath.Join(tmp, "spec.go"), []byte(r.w.replaySpecSource(pk)), 0644)
+		m := &StandinMeta{Name: n, Package: filepath.Base(pk.Dir), Domain: "axioms " + strings.Join(doms, "; ") + " (complete enumeration of the finite domain, real code behind the uninterpreted functions)", Exhaustive: true, Test: "TestStandinAxioms_" + n, Timeout: 900}
+		out = append(out, r.runStandin(tmp, m, ""))
+		os.RemoveAll(tmp)
 	}
 	return out
 }
 
-func (r *Run) runStandin(dir string, m *StandinMeta) *StandinResult {
+func fmtArgs(vars []string) string {
+	var ps []string
+	for _, v := range vars {
+		ps = append(ps, fmt.Sprintf("%q, %s", v+"=", v))
+	}
+	return strings.Join(ps, ", ")
+}
+
+func (r *Run) runStandin(dir string, m *StandinMeta, _ string) *StandinResult {
 	res := &StandinResult{Name: m.Name, Domain: m.Domain, Exhaustive: m.Exhaustive}
 	if r.tier == "thorough" && m.Thorough != "" {
 		res.Domain = m.Thorough
